@@ -455,11 +455,14 @@ package internal
 //@ macro PROVIDX(FL) = FL.providers != nil && forall(t, int, implies(typeof(tmapAt(FL.providers, t)) == typeid("int"), 0 <= dataof(tmapAt(FL.providers, t)) && dataof(tmapAt(FL.providers, t)) < len(FL.Funcs)))
 //@ macro UNCH(FL) = forall(t, int, tmapAt(FL.providers, t) == old(tmapAt(FL.providers, t)))
 
+// (C13 as well: toposort and the generator recurse over Dependencies without a
+// cycle check of their own - a dependency cycle the search misses is a stack
+// overflow of the tool, not only a wrongly accepted flow.)
 //@ func validateFlowCycles
 //@   option props=[C13]
 //@   ghost found bool = false
 //@   at call findFlowCycles 1 ghost found = ret != nil
-//@   ensures [C14] the-cycle-search-result-is-returned: (result != nil) == found
+//@   ensures [C14,C13] the-cycle-search-result-is-returned: (result != nil) == found
 //@   requires f != nil && fset != nil
 //@   requires funcs-non-nil: forall(i, int, implies(0 <= i && i < len(f.Funcs), f.Funcs[i] != nil && f.Funcs[i].Node != nil))
 //@   requires providers-hold-function-indices: $PROVIDX(f)
@@ -472,12 +475,12 @@ package internal
 //@   requires funcs-non-nil: forall(i, int, implies(0 <= i && i < len(f.Funcs), f.Funcs[i] != nil && f.Funcs[i].Node != nil))
 //@   requires providers-hold-function-indices: $PROVIDX(f) && visited != f.providers
 //@   loop 1 invariant providers-map-unchanged: $UNCH(f) && !found
-//@   loop 2 invariant [C14] every-dependency-edge-so-far-was-searched: 0 <= idx2 && idx2 <= len(t.Dependencies) && $UNCH(f) && !found
+//@   loop 2 invariant [C14,C13] every-dependency-edge-so-far-was-searched: 0 <= idx2 && idx2 <= len(t.Dependencies) && $UNCH(f) && !found
 //@   ensures [C14,C01] providers-map-unchanged: $UNCH(f)
-//@   at call findFlowCyclesForFunc 1 pre assert [C14] search-starts-from-each-dependency-edge: arg0 == f && len(arg1) == 0 && arg2 == t.Dependencies[idx2] && arg3 == visited
+//@   at call findFlowCyclesForFunc 1 pre assert [C14,C13] search-starts-from-each-dependency-edge: arg0 == f && len(arg1) == 0 && arg2 == t.Dependencies[idx2] && arg3 == visited
 //@   ghost found bool = false
 //@   at call findFlowCyclesForFunc 1 ghost found = found || ret != nil
-//@   ensures [C14] a-cycle-found-from-any-edge-is-returned: (result != nil) == found
+//@   ensures [C14,C13] a-cycle-found-from-any-edge-is-returned: (result != nil) == found
 
 //@ func findFlowCyclesForFunc
 //@   option props=[C13]
@@ -486,11 +489,11 @@ package internal
 //@   requires funcs-non-nil: forall(i, int, implies(0 <= i && i < len(f.Funcs), f.Funcs[i] != nil && f.Funcs[i].Node != nil))
 //@   requires providers-hold-function-indices: $PROVIDX(f) && visited != f.providers
 //@   loop 1 invariant providers-map-unchanged: $UNCH(f)
-//@   loop 2 invariant [C14] dependencies-searched-so-far: nsearch == idx2 && 0 <= idx2 && idx2 <= len(fn.Dependencies) && $UNCH(f) && !suberr && !hit
+//@   loop 2 invariant [C14,C13] dependencies-searched-so-far: nsearch == idx2 && 0 <= idx2 && idx2 <= len(fn.Dependencies) && $UNCH(f) && !suberr && !hit
 //@   ensures [C14,C01] providers-map-unchanged: $UNCH(f)
-//@   at call findFlowCyclesForFunc 1 pre assert [C14] recursion-follows-each-dependency-with-the-extended-path: arg0 == f && arg2 == fn.Dependencies[idx2] && arg3 == visited && len(arg1) == len(path) + 1 && arg1[len(path)].Type == t && arg1[len(path)].Func == fn
+//@   at call findFlowCyclesForFunc 1 pre assert [C14,C13] recursion-follows-each-dependency-with-the-extended-path: arg0 == f && arg2 == fn.Dependencies[idx2] && arg3 == visited && len(arg1) == len(path) + 1 && arg1[len(path)].Type == t && arg1[len(path)].Func == fn
 //@   at call findFlowCyclesForFunc 1 ghost nsearch = nsearch + 1
-//@   at call Set 1 pre assert [C14] memoised-only-after-every-dependency-was-searched: nsearch == len(fn.Dependencies) && arg1 == t
+//@   at call Set 1 pre assert [C14,C13] memoised-only-after-every-dependency-was-searched: nsearch == len(fn.Dependencies) && arg1 == t
 //   the decision: a type already on the path is a cycle and is reported; an error
 //   of a deeper search is passed up; nothing else is reported; a type that is
 //   neither memoised nor provider-less is searched through all its dependencies
@@ -499,19 +502,19 @@ package internal
 //@   ghost memo bool = false
 //@   ghost hasProv bool = false
 //@   at call At 1 ghost hasProv = typeof(ret) == typeid("int")
-//@   at call Identical 1 pre assert [C14] the-searched-type-is-compared-with-each-path-entry: arg1 == t && arg0 == path[idx1].Type
+//@   at call Identical 1 pre assert [C14,C13] the-searched-type-is-compared-with-each-path-entry: arg1 == t && arg0 == path[idx1].Type
 //@   at call Identical 1 ghost hit = hit || ret
 //@   ghost ncmp int = 0
 //@   at call Identical 1 ghost ncmp = ncmp + 1
-//@   loop 1 invariant [C14] path-entries-compared-so-far: ncmp == idx1 && 0 <= idx1 && idx1 <= len(path) && !hit
-//@   at call At 2 pre assert [C14] every-path-entry-was-compared-before-the-search-goes-deeper: ncmp == len(path) && !hit
-//@   at call At 2 pre assert [C14] memo-lookup-is-for-the-searched-type: arg1 == t && arg0 == visited
+//@   loop 1 invariant [C14,C13] path-entries-compared-so-far: ncmp == idx1 && 0 <= idx1 && idx1 <= len(path) && !hit
+//@   at call At 2 pre assert [C14,C13] every-path-entry-was-compared-before-the-search-goes-deeper: ncmp == len(path) && !hit
+//@   at call At 2 pre assert [C14,C13] memo-lookup-is-for-the-searched-type: arg1 == t && arg0 == visited
 //@   at call At 2 ghost memo = ret != nil
 //@   at call findFlowCyclesForFunc 1 ghost suberr = suberr || ret != nil
-//@   loop 1 invariant [C14] no-path-entry-so-far-is-the-searched-type: !hit && !suberr && 0 <= idx1 && idx1 <= len(path)
-//@   ensures [C14] a-type-already-on-the-path-is-reported-as-a-cycle-and-deeper-errors-are-passed-up: implies(hit || suberr, result != nil)
-//@   ensures [C14] nothing-else-is-reported: implies(result != nil, hit || suberr)
-//@   ensures [C14] an-unmemoised-provided-type-is-searched-through-all-its-dependencies: implies(result == nil && hasProv && !memo, nsearch == len(f.Funcs[dataof(tmapAt(f.providers, t))].Dependencies))
+//@   loop 1 invariant [C14,C13] no-path-entry-so-far-is-the-searched-type: !hit && !suberr && 0 <= idx1 && idx1 <= len(path)
+//@   ensures [C14,C13] a-type-already-on-the-path-is-reported-as-a-cycle-and-deeper-errors-are-passed-up: implies(hit || suberr, result != nil)
+//@   ensures [C14,C13] nothing-else-is-reported: implies(result != nil, hit || suberr)
+//@   ensures [C14,C13] an-unmemoised-provided-type-is-searched-through-all-its-dependencies: implies(result == nil && hasProv && !memo, nsearch == len(f.Funcs[dataof(tmapAt(f.providers, t))].Dependencies))
 
 // ---------------------------------------------------------------------------
 // C14, providers: a type provided twice - by two values in cff.Params or by two
@@ -538,7 +541,7 @@ package internal
 //@   requires $C && f != nil
 //@   requires tasks-non-nil: forall(i, int, implies(0 <= i && i < len(f.Tasks), f.Tasks[i] != nil))
 //@   loop 1 invariant no-diagnostic-removed: $MONO
-//@   ensures [C14] no-diagnostic-removed: $MONO
+//@   ensures [C14,C13] no-diagnostic-removed: $MONO
 
 //@ func (*compiler).compileFlow
 //@   option props=[C13]
